@@ -911,4 +911,354 @@ theorem keyedWalk_below (cfg : Cfg) (p : Path) (sa oa : Val) (i : Nat) (xs : Lis
 termination_by structural xs
 end
 
+/-! #### the filter equation -/
+
+/-- a filter equation below `p ++ [s]` is one below `p` when the prefix `p` itself is not hit -/
+theorem FiltOf.lift {ex : PatArg} {p : Path} {s : PSeg} {r r' : Res}
+    (ht : ((lastIsKey p || isIdx s) && xpathMatch (render p) ex != 0) = false)
+    (hb : Below (fun _ => true) (p ++ [s]) r) (h : FiltOf (exKeep ex (p ++ [s])) r r') :
+    FiltOf (exKeep ex p) r r' := by
+  refine h.congr ?_
+  intro q hq
+  obtain ⟨s', more, rfl, _⟩ := hb q hq
+  rw [exKeep_append]
+  have e : (p ++ [s]) ++ s' :: more = p ++ s :: s' :: more := by simp
+  rw [e, exKeep_append]
+  simp only [exclHit, ht, Bool.false_or]
+
+theorem classifyEntry_excl_false {cfg : Cfg} {full : Path} (x y : Val) (he : excluded cfg full = false) :
+    classifyEntry (noExcl cfg) full x y = classifyEntry cfg full x y := by
+  unfold classifyEntry
+  rw [he]
+  rfl
+
+theorem classifyEntry_excl_true {cfg : Cfg} {full : Path} (x y : Val) (he : excluded cfg full = true) :
+    classifyEntry cfg full x y = .emit Res.empty true := by
+  simp [classifyEntry, he]
+
+theorem leftover_excl (cfg : Cfg) (p : Path) (hp : (lastIsKey p && excluded cfg p) = false) (kv : Str × Val) :
+    leftover cfg p kv = (leftover (noExcl cfg) p kv).filter (fun e => exKeep cfg.excl p e.path) := by
+  simp only [leftover, excluded_noExcl, onlyOk_noExcl, Bool.not_false, Bool.true_and]
+  cases he : excluded cfg (p ++ [.key kv.1]) <;> cases ho : onlyOk cfg (p ++ [.key kv.1]) <;>
+    simp [Option.filter, exKeep_key cfg p kv.1 hp, he]
+
+theorem dictTail_excl (cfg : Cfg) (p : Path) (hp : (lastIsKey p && excluded cfg p) = false) (sa oa : Val)
+    (skvs okvs : List (Str × Val)) (s s' : Bool) :
+    FiltOf (exKeep cfg.excl p) (dictTail (noExcl cfg) p sa oa skvs okvs s) (dictTail cfg p sa oa skvs okvs s') := by
+  have hf : ∀ l : List (Str × Val), l.filterMap (leftover cfg p) =
+      (l.filterMap (leftover (noExcl cfg) p)).filter (fun e => exKeep cfg.excl p e.path) := by
+    intro l
+    rw [List.filter_filterMap]
+    congr 1
+    funext kv
+    exact leftover_excl cfg p hp kv
+  constructor <;> simp [dictTail, hf]
+
+theorem hp_key (cfg : Cfg) (p : Path) (k : Str) (he : excluded cfg (p ++ [.key k]) = false) :
+    (lastIsKey (p ++ [.key k]) && excluded cfg (p ++ [.key k])) = false := by simp [he]
+
+theorem hp_idxSeg (cfg : Cfg) (p : Path) (s : PSeg) (hs : isIdx s = true) :
+    (lastIsKey (p ++ [s]) && excluded cfg (p ++ [s])) = false := by simp [hs]
+
+theorem ht_key (cfg : Cfg) (p : Path) (k : Str) (hp : (lastIsKey p && excluded cfg p) = false) :
+    ((lastIsKey p || isIdx (.key k)) && xpathMatch (render p) cfg.excl != 0) = false := by
+  simpa [isIdx, excluded] using hp
+
+theorem ht_idxSeg (cfg : Cfg) (p : Path) (s : PSeg) (hp : excluded cfg p = false) :
+    ((lastIsKey p || isIdx s) && xpathMatch (render p) cfg.excl != 0) = false := by
+  simp only [excluded] at hp
+  simp [hp]
+
+mutual
+theorem sub_excl (cfg : Cfg) (site : Site) (p : Path) (v w : Val) (r : Res)
+    (hp : (lastIsKey p && excluded cfg p) = false)
+    (h : sub (noExcl cfg) site p v w = .ok r) :
+    ∃ r', sub cfg site p v w = .ok r' ∧ FiltOf (exKeep cfg.excl p) r r' :=
+  match v, w, h with
+  | .list c xs, w, h => by
+    cases w with
+    | list c' ys =>
+      simp only [sub, noExcl_direct, excluded_noExcl, keysOf_noExcl] at h ⊢
+      by_cases h1 : site = .item ∧ cfg.direct = true ∧ c = .plain
+      · rw [if_pos h1] at h; cases h
+      · rw [if_neg h1] at h ⊢
+        by_cases h2 : site = .item ∧ cfg.direct = true ∧ c' = .plain
+        · rw [if_pos h2] at h; cases h
+        · rw [if_neg h2] at h ⊢
+          simp only [Bool.false_eq_true, if_false] at h
+          cases h3 : excluded cfg p with
+          | true =>
+            simp only [if_true]
+            refine ⟨_, rfl, FiltOf.none ?_⟩
+            have hb : Below isIdx p r := by
+              by_cases h4 : cfg.direct = true
+              · rw [if_pos h4] at h
+                exact directWalk_below (noExcl cfg) p _ _ 0 xs ys r h
+              · rw [if_neg h4] at h
+                cases hk : keysOf cfg p xs with
+                | error e => rw [hk] at h; cases h
+                | ok ks =>
+                  rw [hk] at h
+                  simp only at h
+                  cases hk' : keysOf cfg p ys with
+                  | error e => rw [hk'] at h; cases h
+                  | ok ko =>
+                    rw [hk'] at h
+                    simp only at h
+                    exact keyedWalk_below (noExcl cfg) p _ _ 0 xs ks _ _ r h
+            intro q hq
+            obtain ⟨s, more, rfl, hs⟩ := hb q hq
+            exact exKeep_under_list cfg p s more h3 hs
+          | false =>
+            simp only [Bool.false_eq_true, if_false]
+            by_cases h4 : cfg.direct = true
+            · rw [if_pos h4] at h ⊢
+              exact directWalk_excl cfg p _ _ 0 xs ys r h3 h
+            · rw [if_neg h4] at h ⊢
+              cases hk : keysOf cfg p xs with
+              | error e => rw [hk] at h; cases h
+              | ok ks =>
+                rw [hk] at h
+                simp only at h ⊢
+                cases hk' : keysOf cfg p ys with
+                | error e => rw [hk'] at h; cases h
+                | ok ko =>
+                  rw [hk'] at h
+                  simp only at h ⊢
+                  exact keyedWalk_excl cfg p _ _ 0 xs ks _ _ r h3 h
+    | _ => simp [sub] at h
+  | .dict c kvs, w, h => by
+    cases w with
+    | dict c' kvs' =>
+      simp only [sub] at h ⊢
+      split at h
+      · cases h
+      · rename_i h1
+        rw [if_neg (show ¬(site = .item ∧ cfg.direct = false ∧ c' = .plain) from h1)]
+        exact dictWalk_excl cfg p _ _ kvs kvs' true true kvs r hp h
+    | _ => simp [sub] at h
+  | .none, _, h => by
+    simp [sub] at h; subst h
+    exact ⟨Res.empty, by simp [sub], FiltOf.empty _⟩
+  | .bool _, _, h => by simp [sub] at h
+  | .int _, _, h => by simp [sub] at h
+  | .flt _, _, h => by simp [sub] at h
+  | .str _, _, h => by simp [sub] at h
+termination_by structural v
+
+theorem dictWalk_excl (cfg : Cfg) (p : Path) (sa oa : Val) (skvs okvs : List (Str × Val))
+    (still still' : Bool) (kvs : List (Str × Val)) (r : Res)
+    (hp : (lastIsKey p && excluded cfg p) = false)
+    (h : dictWalk (noExcl cfg) p sa oa skvs okvs still kvs = .ok r) :
+    ∃ r', dictWalk cfg p sa oa skvs okvs still' kvs = .ok r' ∧ FiltOf (exKeep cfg.excl p) r r' :=
+  match kvs, still, still', h with
+  | [], still, still', h => by
+    simp only [dictWalk] at h ⊢
+    cases h
+    exact ⟨_, rfl, dictTail_excl cfg p hp sa oa skvs okvs still still'⟩
+  | (k, v) :: rest, still, still', h => by
+    simp only [dictWalk] at h ⊢
+    cases hl : Val.lookup k okvs with
+    | none =>
+      rw [hl] at h
+      exact dictWalk_excl cfg p sa oa skvs okvs still still' rest r hp h
+    | some w =>
+      rw [hl] at h
+      simp only at h ⊢
+      cases he : excluded cfg (p ++ [.key k]) with
+      | true =>
+        rw [classifyEntry_excl_true v w he]
+        simp only
+        cases hcl0 : classifyEntry (noExcl cfg) (p ++ [.key k]) v w with
+        | emit r0 s0 =>
+          rw [hcl0] at h
+          simp only at h
+          cases hr : dictWalk (noExcl cfg) p sa oa skvs okvs (still && s0) rest with
+          | error e => rw [hr] at h; cases h
+          | ok r1 =>
+            rw [hr] at h; cases h
+            obtain ⟨r1', hr1', hf⟩ := dictWalk_excl cfg p sa oa skvs okvs (still && s0) (still' && true) rest r1 hp hr
+            refine ⟨Res.empty ++ r1', by rw [hr1'], FiltOf.append (FiltOf.none ?_) hf⟩
+            intro q hq
+            rw [classifyEntry_paths hcl0 q hq]
+            simpa using exKeep_under_key cfg p k [] he
+        | descend =>
+          rw [hcl0] at h
+          simp only at h
+          cases hs : sub (noExcl cfg) .entry (p ++ [.key k]) v w with
+          | error e => rw [hs] at h; cases h
+          | ok r0 =>
+            rw [hs] at h
+            simp only at h
+            cases hr : dictWalk (noExcl cfg) p sa oa skvs okvs still rest with
+            | error e => rw [hr] at h; cases h
+            | ok r1 =>
+              rw [hr] at h; cases h
+              obtain ⟨r1', hr1', hf⟩ := dictWalk_excl cfg p sa oa skvs okvs still (still' && true) rest r1 hp hr
+              refine ⟨Res.empty ++ r1', by rw [hr1'], FiltOf.append (FiltOf.none ?_) hf⟩
+              intro q hq
+              obtain ⟨s, more, rfl, _⟩ := sub_below (noExcl cfg) .entry _ v w r0 hs q hq
+              exact exKeep_under_key cfg p k (s :: more) he
+      | false =>
+        rw [classifyEntry_excl_false v w he] at h
+        cases hcl : classifyEntry cfg (p ++ [.key k]) v w with
+        | emit r0 s0 =>
+          rw [hcl] at h
+          simp only at h ⊢
+          cases hr : dictWalk (noExcl cfg) p sa oa skvs okvs (still && s0) rest with
+          | error e => rw [hr] at h; cases h
+          | ok r1 =>
+            rw [hr] at h; cases h
+            obtain ⟨r1', hr1', hf⟩ := dictWalk_excl cfg p sa oa skvs okvs (still && s0) (still' && s0) rest r1 hp hr
+            refine ⟨r0 ++ r1', by rw [hr1'], FiltOf.append (FiltOf.all ?_) hf⟩
+            intro q hq
+            rw [classifyEntry_paths hcl q hq, exKeep_key cfg p k hp, he]; rfl
+        | descend =>
+          rw [hcl] at h
+          simp only at h ⊢
+          cases hs : sub (noExcl cfg) .entry (p ++ [.key k]) v w with
+          | error e => rw [hs] at h; cases h
+          | ok r0 =>
+            rw [hs] at h
+            simp only at h
+            cases hr : dictWalk (noExcl cfg) p sa oa skvs okvs still rest with
+            | error e => rw [hr] at h; cases h
+            | ok r1 =>
+              rw [hr] at h; cases h
+              obtain ⟨r0', hr0', hf0⟩ := sub_excl cfg .entry (p ++ [.key k]) v w r0 (hp_key cfg p k he) hs
+              obtain ⟨r1', hr1', hf⟩ := dictWalk_excl cfg p sa oa skvs okvs still still' rest r1 hp hr
+              exact ⟨r0' ++ r1', by rw [hr0']; simp only; rw [hr1'],
+                FiltOf.append (FiltOf.lift (ht_key cfg p k hp) (sub_below _ _ _ _ _ _ hs) hf0) hf⟩
+termination_by structural kvs
+
+theorem directWalk_excl (cfg : Cfg) (p : Path) (sa oa : Val) (i : Nat) (xs ys : List Val) (r : Res)
+    (hp : excluded cfg p = false)
+    (h : directWalk (noExcl cfg) p sa oa i xs ys = .ok r) :
+    ∃ r', directWalk cfg p sa oa i xs ys = .ok r' ∧ FiltOf (exKeep cfg.excl p) r r' :=
+  match xs, ys, i, h with
+  | [], ys, i, h => by
+    simp only [directWalk] at h ⊢
+    cases h
+    refine ⟨_, rfl, FiltOf.all ?_⟩
+    intro q hq
+    simp only [Res.paths, List.map_nil, List.append_nil, List.nil_append, List.mem_map] at hq
+    obtain ⟨e, he, rfl⟩ := hq
+    obtain ⟨j, hj⟩ := otherTail_paths p ys i e he
+    rw [hj]; exact exKeep_idxSeg cfg p _ hp rfl
+  | x :: xs, [], i, h => by
+    simp only [directWalk] at h ⊢
+    cases hr : directWalk (noExcl cfg) p sa oa (i + 1) xs [] with
+    | error e => rw [hr] at h; cases h
+    | ok r1 =>
+      rw [hr] at h; cases h
+      obtain ⟨r1', hr1', hf⟩ := directWalk_excl cfg p sa oa (i + 1) xs [] r1 hp hr
+      refine ⟨_, by rw [hr1'], FiltOf.append (FiltOf.all ?_) hf⟩
+      intro q hq
+      simp only [Res.paths, List.map_nil, List.append_nil, List.nil_append, List.map_cons, List.mem_singleton] at hq
+      rw [hq]; exact exKeep_idxSeg cfg p _ hp rfl
+  | x :: xs, y :: ys, i, h => by
+    simp only [directWalk, classifyItem_noExcl] at h ⊢
+    cases hcl : classifyItem cfg p (p ++ [.idx i]) (p ++ [.idx i]) sa oa x y with
+    | emit r0 s =>
+      rw [hcl] at h
+      simp only at h ⊢
+      cases hr : directWalk (noExcl cfg) p sa oa (i + 1) xs ys with
+      | error e => rw [hr] at h; cases h
+      | ok r1 =>
+        rw [hr] at h; cases h
+        obtain ⟨r1', hr1', hf⟩ := directWalk_excl cfg p sa oa (i + 1) xs ys r1 hp hr
+        exact ⟨r0 ++ r1', by rw [hr1'], FiltOf.append
+          (classifyItem_filt hcl (exKeep_idxSeg cfg p _ hp rfl) (exKeep_idxSeg cfg p _ hp rfl)) hf⟩
+    | descend =>
+      rw [hcl] at h
+      simp only at h ⊢
+      cases hs : sub (noExcl cfg) .item (p ++ [.idx i]) x y with
+      | error e => rw [hs] at h; cases h
+      | ok r0 =>
+        rw [hs] at h
+        simp only at h
+        cases hr : directWalk (noExcl cfg) p sa oa (i + 1) xs ys with
+        | error e => rw [hr] at h; cases h
+        | ok r1 =>
+          rw [hr] at h; cases h
+          obtain ⟨r0', hr0', hf0⟩ := sub_excl cfg .item (p ++ [.idx i]) x y r0 (hp_idxSeg cfg p _ rfl) hs
+          obtain ⟨r1', hr1', hf⟩ := directWalk_excl cfg p sa oa (i + 1) xs ys r1 hp hr
+          exact ⟨r0' ++ r1', by rw [hr0']; simp only; rw [hr1'],
+            FiltOf.append (FiltOf.lift (ht_idxSeg cfg p _ hp) (sub_below _ _ _ _ _ _ hs) hf0) hf⟩
+termination_by structural xs
+
+theorem keyedWalk_excl (cfg : Cfg) (p : Path) (sa oa : Val) (i : Nat) (xs : List Val) (ks : List Str)
+    (sr orr : List KE) (r : Res)
+    (hp : excluded cfg p = false)
+    (h : keyedWalk (noExcl cfg) p sa oa i xs ks sr orr = .ok r) :
+    ∃ r', keyedWalk cfg p sa oa i xs ks sr orr = .ok r' ∧ FiltOf (exKeep cfg.excl p) r r' :=
+  match xs, ks, sr, orr, i, h with
+  | [], _, sr, orr, i, h => by
+    simp only [keyedWalk] at h ⊢
+    cases h
+    exact ⟨_, rfl, keyedTail_filt _ p (fun j => exKeep_idxSeg cfg p _ hp rfl) sr orr⟩
+  | _ :: _, [], _, _, i, h => by simp [keyedWalk] at h
+  | x :: xs, k :: ks, sr, orr, i, h => by
+    simp only [keyedWalk, classifyItem_noExcl] at h ⊢
+    cases hf : findKey k orr with
+    | none =>
+      rw [hf] at h
+      exact keyedWalk_excl cfg p sa oa (i + 1) xs ks sr orr r hp h
+    | some jy =>
+      obtain ⟨j, y⟩ := jy
+      rw [hf] at h
+      simp only at h ⊢
+      cases hcl : classifyItem cfg p (p ++ [if i = j then PSeg.idx i else PSeg.idx2 i j]) (p ++ [.idx i]) sa oa x y with
+      | emit r0 s =>
+        rw [hcl] at h
+        simp only at h ⊢
+        cases hr : keyedWalk (noExcl cfg) p sa oa (i + 1) xs ks (eraseKey k sr) (eraseKey k orr) with
+        | error e => rw [hr] at h; cases h
+        | ok r1 =>
+          rw [hr] at h; cases h
+          obtain ⟨r1', hr1', hf⟩ := keyedWalk_excl cfg p sa oa (i + 1) xs ks _ _ r1 hp hr
+          exact ⟨r0 ++ r1', by rw [hr1'], FiltOf.append
+            (classifyItem_filt hcl (exKeep_idxSeg cfg p _ hp (isIdx_seg i j)) (exKeep_idxSeg cfg p _ hp rfl)) hf⟩
+      | descend =>
+        rw [hcl] at h
+        simp only at h ⊢
+        cases hs : sub (noExcl cfg) .item (p ++ [if i = j then PSeg.idx i else PSeg.idx2 i j]) x y with
+        | error e => rw [hs] at h; cases h
+        | ok r0 =>
+          rw [hs] at h
+          simp only at h
+          cases hr : keyedWalk (noExcl cfg) p sa oa (i + 1) xs ks (eraseKey k sr) (eraseKey k orr) with
+          | error e => rw [hr] at h; cases h
+          | ok r1 =>
+            rw [hr] at h; cases h
+            obtain ⟨r0', hr0', hf0⟩ := sub_excl cfg .item _ x y r0 (hp_idxSeg cfg p _ (isIdx_seg i j)) hs
+            obtain ⟨r1', hr1', hf⟩ := keyedWalk_excl cfg p sa oa (i + 1) xs ks _ _ r1 hp hr
+            exact ⟨r0' ++ r1', by rw [hr0']; simp only; rw [hr1'],
+              FiltOf.append (FiltOf.lift (ht_idxSeg cfg p _ hp) (sub_below _ _ _ _ _ _ hs) hf0) hf⟩
+termination_by structural xs
+end
+
+/-- `exclude_xpaths` is a filter on the difference lists: an entry is dropped iff one of the prefixes of its
+path that end at a dictionary key or name a list matches one of the patterns -/
+theorem exclude_filter (cfg : Cfg) (a b : Val) (r : Res)
+    (h : compareTop { cfg with excl := .many [] } a b = .ok r) :
+    ∃ r', compareTop cfg a b = .ok r' ∧
+      r'.diffPart = (r.filterPaths (fun p => !exclHit cfg.excl [] p)).diffPart := by
+  change compareTop (noExcl cfg) a b = .ok r at h
+  have hk : exKeep cfg.excl [] = (fun p => !exclHit cfg.excl [] p) := by
+    funext q; simp [exKeep]
+  have key : ∃ r', compareTop cfg a b = .ok r' ∧ FiltOf (exKeep cfg.excl []) r r' := by
+    unfold compareTop at h ⊢
+    split at h
+    · split at h
+      · exact dictWalk_excl cfg [] _ _ _ _ true true _ r (by simp) h
+      · cases h
+    · split at h
+      · exact sub_excl cfg .entry [] _ _ r (by simp) h
+      · cases h
+    · cases h
+  obtain ⟨r', hr', hf⟩ := key
+  rw [hk] at hf
+  exact ⟨r', hr', hf.diffPart (compareTop_balanced cfg a b r' hr')⟩
+
 end N0.Compare
